@@ -73,7 +73,8 @@ def do_from_nfa(ctx: Ctx, N: NFA, retain: bool, minify: bool, origin: str, ref=N
     ctx.stat(f"from_nfa_retain{int(retain)}_minify{int(minify)}")
     if res[0] == "err":
         ctx.case(None)
-        ctx.prop_fail(pre + f"DFA.from_nfa raised {res[1]} on a valid NFA", replay)
+        ctx.prop_fail(pre + f"DFA.from_nfa(retain_names={retain}, minify={minify}) raised {res[1]} on a valid NFA "
+                      f"({len(N.states)} states)", replay)
         return None
     R = res[1]
     ok = True
@@ -450,6 +451,83 @@ def mutable_option_family(ctx: Ctx, n: int):
     live_dfa_family(ctx, max(n // 4, 1))
 
 
+# ------------------------------------------------------------------ round 4: more than 128 subset states
+def nth_from_end_exact(n: int, with_eps: bool = False) -> NFA:
+    """(a|b)* a (a|b)^(n-1): 2ⁿ reachable subset states; with_eps: every hop i → i+1 detours through an ε-move."""
+    tr = {0: {"a": {0, 1}, "b": {0}}}
+    states = set(range(n + 1))
+    for i in range(1, n):
+        if with_eps:
+            tr[i] = {"": {100 + i}}
+            tr[100 + i] = {"a": {i + 1}, "b": {i + 1}}
+            states.add(100 + i)
+        else:
+            tr[i] = {"a": {i + 1}, "b": {i + 1}}
+    tr[n] = {}
+    return NFA(states=states, input_symbols={"a", "b"}, transitions=tr, initial_state=0, final_states={n})
+
+
+def ring_nfa(m: int, names=None, eps_every: int = 3) -> NFA:
+    """'The length is a multiple of m': a ring of m states (m reachable subset states, all singletons or ε-closed
+    pairs), every `eps_every`-th hop through an extra state and an ε-move; the last state closes the ring, i.e. the
+    subset construction meets an edge back to the FIRST subset state it named after naming all the others."""
+    nm = names or (lambda i: i)
+    tr, states = {}, set()
+    for i in range(m):
+        nxt = nm((i + 1) % m)
+        states.add(nm(i))
+        if eps_every and i % eps_every == 1:
+            mid = nm(1000 + i)
+            tr[nm(i)] = {"a": {mid}, "b": {mid}}
+            tr[mid] = {"": {nxt}}
+            states.add(mid)
+        else:
+            tr[nm(i)] = {"a": {nxt}, "b": {nxt}}
+    return NFA(states=states, input_symbols={"a", "b"}, transitions=tr, initial_state=nm(0), final_states={nm(0)})
+
+
+def many_subsets_nfa(rng, lo: int = 129, hi: int = 300):
+    """A sparse random NFA of 8–12 states whose subset construction has between lo and hi reachable states
+    (rejection sampling over big_nfa; about 1 in 60 qualifies)."""
+    for _ in range(1500):
+        N = big_nfa(rng)
+        if lo <= _subset_count(N, hi + 2) <= hi:
+            return N
+    return None
+
+
+def many_subsets_family(ctx: Ctx):
+    """Determinisations with MORE THAN 128 (and up to a few hundred) subset states — beyond every small cache / table
+    size (functools.lru_cache default 128, CPython small-int cache 256): 'n-th symbol from the end' for n = 8 (256
+    subsets; all option combinations, with and without ε detours) and n = 9 (512; unminimised), rings of 129 and of
+    130–200 states, random sparse NFAs of 8–12 states with 129–300 reachable subsets.  Judged like every other case
+    (validity, alphabet, complete product search against the source, exact comparison with the model)."""
+    rng = ctx.rng
+    opts = [(r, m) for r in (False, True) for m in (False, True)]
+    cases = [(nth_from_end_exact(8), opts), (nth_from_end_exact(8, True), [(False, False), (False, True)]),
+             (nth_from_end_exact(9), opts if ctx.thorough() else [(False, False)]),
+             (ring_nfa(129), [(False, False), (False, True), (True, False)]),
+             (ring_nfa(rng.randint(130, 200), eps_every=rng.choice([0, 2, 3, 5])), [(False, False), (False, True)]),
+             (ring_nfa(rng.randint(129, 160), names=lambda i: f"s{i}"), [(False, rng.random() < 0.5)])]
+    for _ in range(ctx.budget(3, 40)):
+        N = many_subsets_nfa(rng)
+        if N is not None:
+            cases.append((N, [(False, rng.random() < 0.5), (rng.random() < 0.5, rng.random() < 0.5)]))
+    if ctx.thorough():
+        cases += [(ring_nfa(m), [(False, False), (False, True)]) for m in (128, 130, 256, 257, 300)]
+    for N, combos in cases:
+        c = _subset_count(N, 2000)
+        ctx.stat("subset_states_gt128" if c > 128 else "subset_states_le128")
+        ctx.stat("subset_states_gt256" if c > 256 else "subset_states_le256")
+        for r, m in combos:
+            D = do_from_nfa(ctx, N, r, m, "more_than_128_subset_states")
+            if D is not None and not m and len(D.states) not in (c, c + 1):
+                # not part of the property (languages); the unminimised result is the reachable part of the subset
+                # automaton (+ possibly the empty subset as a trap) — reported as a correspondence difference only
+                ctx.corr_diff("DFA_FROM_NFA state count", dict(N=repr(N), retain_names=r, minify=m),
+                              len(D.states), f"{c} reachable non-empty subsets")
+
+
 def probe_reserved_names(ctx: Ctx):
     """The domain assumption 'symbols are non-empty str' is enforced by the constructors."""
     r = call(lambda: NFA(states={0}, input_symbols={"", "a"}, transitions={0: {}}, initial_state=0, final_states=set()))
@@ -532,6 +610,8 @@ def run(ctx: Ctx):
         r, m = opts[rng.randrange(4)]
         do_from_nfa(ctx, N, r, m, "big_8_to_12_states")
         do_elim(ctx, N, "big_8_to_12_states")
+    # round 4: determinisations with more than 128 subset states
+    many_subsets_family(ctx)
     # round 4: the mutable-automata option — sequences of calls on ONE object built from plain / shared containers
     mutable_option_family(ctx, ctx.budget(300, 6000))
 
